@@ -292,10 +292,8 @@ class SymSeq(object):
                 if i >= n:
                     break
                 if maxsplit >= 0 and len(out) >= maxsplit:
-                    j = n
-                    while j > i and item_in(items[j - 1], self._ws):
-                        j -= 1
-                    out.append(self._new(items[i:j]))
+                    # the remainder keeps its trailing whitespace (CPython semantics)
+                    out.append(self._new(items[i:n]))
                     break
                 j = i
                 while j < n and not item_in(items[j], self._ws):
